@@ -1,1 +1,302 @@
-"""rules for c20 (under construction)"""
+"""C20 - descriptions are interpreted consistently and invalid setups are rejected (structural clauses)."""
+
+import ast
+import re
+
+from ..cfg import FuncCFG, walk_no_nested, ENTRY, EXIT
+from ..model import AnalysisError, ClassInfo, qual
+from ..norm import Normalizer, nnf
+from ..runner import rule
+from .. import controllers as ct
+from .. import facts
+from .. import setups
+
+STEP = 'pySDC/core/step.py'
+CTRL = 'pySDC/core/controller.py'
+CCORE = 'pySDC/core/convergence_controller.py'
+HELP = 'pySDC/helpers/pysdc_helper.py'
+
+# dispatch chains without a rejecting else that are outside C20's configuration names (one reason each)
+DISPATCH_EXC = {
+    ('SpectralHelper.get_fft', 'direction'): 'internal helper argument (forward/backward/object), not a description entry; unknown values fall through to a KeyError at the cache lookup',
+    ('Quench.u_exact', 'self.reference_sol_type'): 'reference-solution selector of one problem class, checked by its own tests; not a description name of the framework',
+}
+CONFIG_SUBJECTS = re.compile(r'(initial_guess|residual_type|predict_type|flavor|sweeper_type|stencil_type|solver_type|bc|algo|quad_type|node_type|embedded_error_flavor)')
+
+
+@rule('C20', 'C20.R1', 'exhaustive name dispatch: every if/elif chain over configuration names ends in an else that raises (or delegates to super())', floor=38)
+def r1(ctx, R):
+    repo = ctx.repo
+    for m, ci, fn in repo.all_functions():
+        for ch in facts.dispatch_chains(fn):
+            name = (ci.name + '.' if ci else '') + fn.name
+            w = qual(m, ci, fn)
+            c = f'{name} :: dispatch on {ch["subject"]} over {sorted(map(str, ch["names"]))}'
+            if ch['else_kind'] in ('raise', 'super'):
+                R.ok(c, w, found=f'else -> {ch["else_kind"]}')
+                continue
+            if ch['else_kind'] == 'other-test':
+                # the chain continues with a test of another shape: the final else of the whole If must still reject
+                node = ch['arms'][-1][0]
+                tail = node.orelse
+                while len(tail) == 1 and isinstance(tail[0], ast.If):
+                    tail = tail[0].orelse
+                ok = bool(tail) and any(isinstance(x, ast.Raise) for s in tail for x in walk_no_nested(s))
+                R.check(ok, c, w, 'the final else of the chain raises', 'no rejecting else' if not ok else 'raise')
+                continue
+            key = (name, ch['subject'])
+            if key in DISPATCH_EXC:
+                R.exc(c, w, DISPATCH_EXC[key])
+            else:
+                R.bad(c, w, 'an else branch that raises for unknown names', f'else: {ch["else_kind"]}')
+    # name lookups through registries are rejecting when wrapped / KeyError propagates
+    fn = repo.func('pySDC/core/collocation.py', 'CollBase.__init__')
+    tr = [s for s in walk_no_nested(fn) if isinstance(s, ast.Try)]
+    ok = len(tr) == 1 and 'Q_GENERATORS' in ast.unparse(tr[0].body[0]) and any('CollocationError' in ast.unparse(h) for h in tr[0].handlers)
+    R.check(ok, 'CollBase.__init__ :: unknown node/quadrature type -> CollocationError', 'pySDC/core/collocation.py:CollBase.__init__', 'try: Q_GENERATORS[..](..) except: raise CollocationError', 'ok' if ok else 'missing')
+    fn = repo.func('pySDC/core/sweeper.py', 'Sweeper.buildGenerator')
+    R.check('QDELTA_GENERATORS[qdType]' in ast.unparse(fn), 'Sweeper.buildGenerator :: unknown preconditioner name -> KeyError from the registry lookup', 'pySDC/core/sweeper.py:Sweeper.buildGenerator', 'QDELTA_GENERATORS[qdType]', ast.unparse(fn)[-80:])
+
+
+def _atoms(nf):
+    if isinstance(nf, tuple) and nf[0] in ('and', 'or'):
+        out = set()
+        for k in nf[1]:
+            out |= _atoms(k)
+        return out
+    if isinstance(nf, tuple) and nf[0] == 'not':
+        return {'not ' + a for a in _atoms(nf[1])} | _atoms(nf[1])
+    return {nf}
+
+
+def _raises(fn, err, must_mention):
+    """raise sites of class `err` whose guard set (in negation normal form) contains all of `must_mention`"""
+    from ..norm import guards_nnf, bool_nf
+    cfg = FuncCFG(fn)
+    out = []
+    for n, s in cfg.stmt_of.items():
+        if isinstance(s, ast.Raise) and s.exc is not None and err in ast.unparse(s.exc):
+            gs = facts.guard_strings(cfg, s)
+            atoms = _atoms(guards_nnf(gs)) if gs else set()
+            text = ' && '.join(sorted(map(str, atoms)))
+            lp = ' '.join(ast.unparse(l.iter) for l in cfg.loops_of[id(s)] if isinstance(l, ast.For))
+            def has(x):
+                try:
+                    nx_ = bool_nf(ast.parse(x, mode='eval').body)
+                except SyntaxError:
+                    nx_ = x
+                return nx_ in atoms or (isinstance(nx_, str) and any(nx_ in str(a) for a in atoms)) or x in lp or x in text
+            if all(has(x) for x in must_mention):
+                out.append(text)
+    return out
+
+
+GUARDS = [
+    (STEP, 'Step._Step__generate_hierarchy', 'ParameterError', ["'dtype_u' in descr"], 'deprecated key dtype_u'),
+    (STEP, 'Step._Step__generate_hierarchy', 'ParameterError', ["'dtype_f' in descr"], 'deprecated key dtype_f'),
+    (STEP, 'Step._Step__generate_hierarchy', 'ParameterError', ['key not in descr', 'essential_keys'], 'missing essential key'),
+    (STEP, 'Step._Step__generate_hierarchy', 'ParameterError', ['len(descr_list) > 1', "space_transfer_class"], 'several levels without space transfer'),
+    ('pySDC/core/sweeper.py', 'Sweeper.__init__', 'ParameterError', ['key not in params', 'essential_keys'], 'sweeper without num_nodes'),
+    (ct.NONMPI[0], 'controller_nonMPI.__init__', 'ControllerError', ["'predict' in controller_params"], 'deprecated predict flag'),
+    (ct.NONMPI[0], 'controller_nonMPI.__init__', 'ControllerError', ['num_procs > 1', 'len(self.MS[0].levels) > 1', 'right_is_node'], 'PFASST without the right end point as node'),
+    (ct.NONMPI[0], 'controller_nonMPI.__init__', 'ControllerError', ['len(S.levels) == len(self.MS[0].levels)'], 'unequal level counts'),
+    (ct.NONMPI[0], 'controller_nonMPI.__init__', 'ControllerError', ['self.nlevels == 0'], 'zero levels'),
+    (ct.NONMPI[0], 'controller_nonMPI.__init__', 'ControllerError', ['self.nlevels > 1', 'self.nsweeps[-1] > 1'], 'several sweeps on the coarsest level'),
+    ('pySDC/core/collocation.py', 'CollBase.__init__', 'CollocationError', ['num_nodes > 0'], 'no nodes'),
+    ('pySDC/core/collocation.py', 'CollBase.__init__', 'CollocationError', ['tleft < tright'], 'empty interval'),
+    (CTRL, 'ParaDiagController.__init__', 'ParameterError', ["'alpha' not in controller_params"], 'ParaDiag without alpha'),
+]
+
+
+@rule('C20', 'C20.R2', 'guards that must raise: missing essential entries and incompatible options are rejected at construction', floor=13)
+def r2(ctx, R):
+    repo = ctx.repo
+    for rel, name, err, mention, what in GUARDS:
+        cn, meth = name.split('.', 1)
+        ci = repo.cls(rel, cn)
+        fn = ci.methods.get(meth) or ci.methods.get(meth.replace(f'_{cn}', ''))
+        if fn is None:
+            raise AnalysisError(f'{rel}:{name} vanished')
+        w = f'{rel}:{cn}.{fn.name}'
+        R.fn(w)
+        hits = _raises(fn, err, mention)
+        R.check(bool(hits), f'{cn}.{fn.name} :: {what} -> {err}', w, f'raise {err} under a guard mentioning {mention}', hits[:1] or 'no such raise')
+
+
+@rule('C20', 'C20.R3', 'frozen classes freeze on every normal exit of __init__; __setattr__ rejects undeclared names; only the sanctioned __dict__ bypasses exist', floor=17)
+def r3(ctx, R):
+    repo = ctx.repo
+    fz = repo.cls(HELP, 'FrozenClass')
+    for ci in repo.subclasses(fz, strict=True):
+        if not repo.is_library(ci):
+            continue
+        fn = ci.methods.get('__init__')
+        w = f'{ci.module.relpath}:{ci.name}.__init__'
+        if fn is None:
+            R.bad(f'{ci.name} :: has an __init__ that freezes', w, '__init__ ending in self._freeze()', 'no __init__')
+            continue
+        R.fn(w)
+        cfg = FuncCFG(fn)
+        fr = [n for n in cfg.stmt_of if any(ast.unparse(c.func) == 'self._freeze' for c in cfg.calls_at(n))]
+        ok = bool(fr) and cfg.must_pass(ENTRY, EXIT, fr)
+        # no new attribute is declared after the freeze (a store after it could only succeed for declared names)
+        R.check(ok, f'{ci.name}.__init__ :: self._freeze() on every normal exit', w, 'every path to return passes _freeze()', f'{len(fr)} freeze call(s)')
+    fn = repo.func(HELP, 'FrozenClass.__setattr__')
+    w = f'{HELP}:FrozenClass.__setattr__'
+    R.fn(w)
+    cfg = FuncCFG(fn)
+    rs = [(n, s) for n, s in cfg.stmt_of.items() if isinstance(s, ast.Raise) and 'TypeError' in ast.unparse(s)]
+    ok = len(rs) == 1
+    if ok:
+        t = cfg.guards[id(rs[0][1])]
+        ok = len(t) == 1 and t[0][1] and nnf(t[0][0]) == ('and', tuple(sorted(['self._FrozenClass__isfrozen' if False else 'self.__isfrozen', ('not', 'hasattr(self, key)'), 'key not in type(self).attrs'], key=repr)))
+        st = [n for n, s in cfg.stmt_of.items() if isinstance(s, ast.Expr) and ast.unparse(s.value) == 'object.__setattr__(self, key, value)']
+        ok = ok and len(st) == 1 and not cfg.reachable(rs[0][0], st[0])
+    R.check(ok, 'FrozenClass.__setattr__ :: raises TypeError when frozen and the name is neither declared nor allow-listed, before storing', w, 'if frozen and not (key in attrs or hasattr(self, key)): raise TypeError', [facts.guard_strings(cfg, s) for _, s in rs])
+    # __dict__ stores: inventory
+    allowed = {'ConvergenceController.set_step_status_variable': 'S.status.__dict__[key]', 'ConvergenceController.set_level_status_variable': 'L.status.__dict__[key]',
+               'GenericSpectralLinear.setup_GPU': "self.__dict__['comm']"}
+    for m, ci, f in repo.all_functions():
+        for s in walk_no_nested(f):
+            tg = s.targets if isinstance(s, ast.Assign) else [s.target] if isinstance(s, ast.AugAssign) else []
+            for t in tg:
+                if isinstance(t, ast.Subscript) and isinstance(t.value, ast.Attribute) and t.value.attr == '__dict__':
+                    name = (ci.name + '.' if ci else '') + f.name
+                    ok = allowed.get(name) == ast.unparse(t)
+                    R.check(ok, f'{name} :: store through {ast.unparse(t)}', qual(m, ci, f), 'only the two status-variable setters (after add_attr) and the NCCL communicator wrapper write through __dict__', ast.unparse(t))
+    for meth, setter in (('add_status_variable_to_step', 'set_step_status_variable'), ('add_status_variable_to_level', 'set_level_status_variable')):
+        fn = repo.func(CCORE, f'ConvergenceController.{meth}')
+        cfg = FuncCFG(fn)
+        add = [n for n in cfg.stmt_of if any(isinstance(c.func, ast.Attribute) and c.func.attr == 'add_attr' for c in cfg.calls_at(n))]
+        st = [n for n in cfg.stmt_of if any(ast.unparse(c.func) == f'self.{setter}' for c in cfg.calls_at(n))]
+        ok = len(add) == 1 and len(st) == 1 and cfg.dominates(add[0], st[0])
+        R.check(ok, f'ConvergenceController.{meth} :: add_attr(key) dominates the __dict__ bypass', f'{CCORE}:ConvergenceController.{meth}', 'declare, then set', f'{len(add)} add_attr, {len(st)} setter call(s)')
+
+
+@rule('C20', 'C20.R4', 'read-only problem parameters: RegisterParams.__setattr__ raises ReadOnlyError; registration uses the sanctioned bypass', floor=2)
+def r4(ctx, R):
+    repo = ctx.repo
+    rel = 'pySDC/core/common.py'
+    fn = repo.func(rel, 'RegisterParams.__setattr__')
+    cfg = FuncCFG(fn)
+    rs = [(n, s) for n, s in cfg.stmt_of.items() if isinstance(s, ast.Raise) and 'ReadOnlyError' in ast.unparse(s)]
+    st = [n for n, s in cfg.stmt_of.items() if isinstance(s, ast.Expr) and ast.unparse(s.value) == 'super().__setattr__(name, value)']
+    ok = len(rs) == 1 and facts.guard_strings(cfg, rs[0][1]) == ['name in self._parNamesReadOnly'] and len(st) == 1 and not cfg.reachable(rs[0][0], st[0])
+    R.check(ok, 'RegisterParams.__setattr__ :: ReadOnlyError for names in _parNamesReadOnly, before anything is stored', f'{rel}:RegisterParams.__setattr__', 'if name in self._parNamesReadOnly: raise ReadOnlyError(name)', [facts.guard_strings(cfg, s) for _, s in rs])
+    fn = repo.func(rel, 'RegisterParams._makeAttributeAndRegister')
+    src = ast.unparse(fn)
+    ok = 'super().__setattr__(name, localVars[name])' in src and 'self._parNamesReadOnly = self._parNamesReadOnly.union(names)' in src
+    R.check(ok, 'RegisterParams._makeAttributeAndRegister :: sets through super().__setattr__ and registers read-only names', f'{rel}:RegisterParams._makeAttributeAndRegister', 'super().__setattr__ ; _parNamesReadOnly.union(names) under readOnly', 'ok' if ok else src[-200:])
+
+
+@rule('C20', 'C20.R5', 'list/scalar distribution: hierarchy length = longest list, entry min(level, len-1), scalars shared; each Level gets the parameters of its own index', floor=5)
+def r5(ctx, R):
+    repo = ctx.repo
+    ci = repo.cls(STEP, 'Step')
+    fn = ci.methods.get('__dict_to_list')
+    if fn is None:
+        raise AnalysisError('Step.__dict_to_list vanished')
+    w = f'{STEP}:Step.__dict_to_list'
+    R.fn(w)
+    N = Normalizer(fn, inline_scalars=False)
+    mv = [c for c in N.contribs if c.target == 'max_val']
+    ok = sorted(c.rhs for c in mv) == ['1', 'max(max_val, len(v))'] and any(g == 'type(v) is list' for c in mv for g in c.guards)
+    R.check(ok, '__dict_to_list :: number of levels = max(1, longest list)', w, 'max_val = max(max_val, len(v)) for list values', [c.describe() for c in mv])
+    ld = [c for c in N.contribs if c.target == 'ld' and c.op == '=']
+    R.check(len(ld) == 1 and ld[0].rhs == '[{} for _ in range(max_val)]', '__dict_to_list :: one dict per level', w, '[{} for _ in range(max_val)]', [c.rhs for c in ld])
+    st = sorted((c.rhs, c.guards[-1]) for c in N.contribs if re.fullmatch(r'ld\[.+\]\[k\]', c.target))
+    idx = None
+    for c in N.contribs:
+        m = re.fullmatch(r'ld\[(.+)\]\[k\]', c.target)
+        if m:
+            idx = m.group(1)
+    lv_ = [l.target.id for l in walk_no_nested(fn) if isinstance(l, ast.For) and ast.unparse(l.iter) == 'range(len(ld))' and isinstance(l.target, ast.Name)]
+    dvar = lv_[0] if len(lv_) == 1 else '?'
+    want = sorted([('v', 'type(v) is not list'), (f'v[min({dvar}, len(v) - 1)]', 'type(v) is list')])
+    if idx != 'i1 - 1':
+        want = [('level dict must be indexed by the level loop variable', idx)]
+    R.check(st == want, '__dict_to_list :: scalars shared, list entry min(level, len-1) (last entry repeats)', w, want, st)
+    gh = ci.methods.get('__generate_hierarchy')
+    w = f'{STEP}:Step.__generate_hierarchy'
+    R.fn(w)
+    lv = [c for c in ast.walk(gh) if isinstance(c, ast.Call) and ast.unparse(c.func) == 'Level']
+    ok = len(lv) == 1
+    if ok:
+        kw = {k.arg: ast.unparse(k.value) for k in lv[0].keywords}
+        want = {'problem_class': "descr_list[l]['problem_class']", 'problem_params': "descr_list[l]['problem_params']", 'sweeper_class': "descr_list[l]['sweeper_class']",
+                'sweeper_params': "descr_list[l]['sweeper_params']", 'level_params': "descr_list[l]['level_params']", 'level_index': 'l'}
+        ok = kw == want
+    R.check(ok, '__generate_hierarchy :: Level l receives entry l of all five lists and level_index = l', w, 'descr_list[l][..] for the same l', kw if lv else None)
+    loops = [s for s in walk_no_nested(gh) if isinstance(s, ast.For) and ast.unparse(s.iter) == 'range(len(descr_list))']
+    R.check(len(loops) == 1, '__generate_hierarchy :: one level per entry of the distributed description', w, 'for l in range(len(descr_list))', len(loops))
+
+
+SETUP_EXC = {
+    ('AdaptivityCollocation', 'control_order'): None,  # handled as finding F7
+    ('EstimateExtrapolationErrorBase', '*'): 'derived keys (Taylor_order, estimate_iter, n, n_per_proc) are computed from the merged parameters after the merge',
+    ('EstimateExtrapolationErrorNonMPI', '*'): 'inherits the derived keys of its base',
+    ('AdaptivityForConvergedCollocationProblems', 'maxiter'): 'maxiter is derived from step_params after the merge when restart_at_maxiter is set',
+    ('AdaptivityExtrapolationWithinQ', 'maxiter'): 'same (inherited)',
+    ('AdaptivityCollocation', 'maxiter'): 'same (inherited), scaled by num_colls',
+    ('AdaptivityCollocation', 'num_colls'): 'derived from adaptive_coll_params after the merge',
+    ('AdaptiveCollocation', '*'): 'vary_keys_*/num_colls are derived from the list-valued user parameters',
+}
+
+
+@rule('C20', 'C20.R6', 'convergence controllers: instantiated once, ordered by control_order, iterated in that order; user parameters override defaults in every setup()', floor=70)
+def r6(ctx, R):
+    repo = ctx.repo
+    fn = repo.func(CTRL, 'Controller.add_convergence_controller')
+    w = f'{CTRL}:Controller.add_convergence_controller'
+    R.fn(w)
+    cfg = FuncCFG(fn)
+    app = [(n, s) for n, s in cfg.stmt_of.items() if isinstance(s, ast.Expr) and 'self.convergence_controllers.append(convergence_controller(self, params, description))' == ast.unparse(s.value)]
+    ok = len(app) == 1 and facts.guard_strings(cfg, app[0][1]) == ['convergence_controller not in [type(me) for me in self.convergence_controllers] or allow_double']
+    R.check(ok, 'add_convergence_controller :: instantiates only if the class is not present yet (or allow_double)', w, 'append under `cls not in [type(me) ...] or allow_double`', [facts.guard_strings(cfg, s) for _, s in app])
+    N = Normalizer(fn, inline_scalars=False)
+    od = [c for c in N.contribs if c.target == 'self.convergence_controller_order']
+    ok = len(od) == 1 and od[0].rhs == 'np.arange(len(self.convergence_controllers))[np.argsort(orders)]' and any(c.target == 'orders' and c.rhs == '[C.params.control_order for C in self.convergence_controllers]' for c in N.contribs)
+    R.check(ok, 'add_convergence_controller :: order = argsort of control_order (ascending), recomputed after every insertion', w, 'np.arange(n)[np.argsort([C.params.control_order ...])]', [c.rhs for c in od])
+    pr = [c for c in N.contribs if c.target == 'params']
+    ok = len(pr) == 1 and pr[0].rhs == "{**({} if params is None else params), 'useMPI': self.useMPI}"
+    R.check(ok, 'add_convergence_controller :: user params are passed on (only useMPI is set by the controller)', w, "{**params, 'useMPI': self.useMPI}", [c.rhs for c in pr])
+    # every iteration over the convergence controllers uses the computed order
+    want_iter = '[self.convergence_controllers[i] for i in self.convergence_controller_order]'
+    n = 0
+    for spec in ct.ALL:
+        ci = repo.cls(spec[0], spec[1])
+        for name, f in ci.methods.items():
+            for l in walk_no_nested(f):
+                if isinstance(l, ast.For) and re.search(r'self\.convergence_controllers\b', ast.unparse(l.iter)):
+                    n += 1
+                    R.check(ast.unparse(l.iter) == want_iter, f'{spec[1]}.{name} :: loop over convergence controllers follows convergence_controller_order', f'{spec[0]}:{spec[1]}.{name}', want_iter, ast.unparse(l.iter))
+    if n < 20:
+        raise AnalysisError(f'C20.R6: only {n} loops over the convergence controllers found')
+    # setup(): the user-carrying part comes after the literal defaults
+    base = repo.cls(CCORE, 'ConvergenceController')
+    bfn = base.methods['setup']
+    ret = [s for s in walk_no_nested(bfn) if isinstance(s, ast.Return)]
+    ok = len(ret) == 1 and ast.unparse(ret[0].value) == "{**params, **description.get('convergence_controllers', {}).get(type(self), {})}"
+    R.check(ok, 'ConvergenceController.setup :: returns the user parameters (constructor params, then the description entry)', f'{CCORE}:ConvergenceController.setup', "{**params, **description['convergence_controllers'][type(self)]}", [ast.unparse(r.value) for r in ret])
+    for ci in repo.subclasses(base, strict=True):
+        if not repo.is_library(ci):
+            continue
+        segs = setups.fold(repo, ci)
+        last_user = max([i for i, s in enumerate(segs) if s.kind == 'user'] or [-1])
+        w = f'{ci.module.relpath}:{ci.name}.setup'
+        if last_user < 0:
+            R.bad(f'{ci.name}.setup :: carries the user parameters', w, '**params or **super().setup(..) in the returned dict', 'user part missing')
+            continue
+        forced = [(s.kind, s.key, s.origin) for i, s in enumerate(segs) if i > last_user]
+        if not forced:
+            R.ok(f'{ci.name}.setup :: user parameters override every default', w, found=f'{sum(1 for s in segs if s.kind == "lit")} literal defaults before the user part')
+            continue
+        for kind, key, origin in forced:
+            c = f'{ci.name}.setup :: key {key!r} is set after the user part (by {origin})'
+            exc = SETUP_EXC.get((ci.name, key), SETUP_EXC.get((ci.name, '*'))) if (ci.name, key) in SETUP_EXC or (ci.name, '*') in SETUP_EXC else None
+            if (ci.name, key) in SETUP_EXC and SETUP_EXC[(ci.name, key)] is None:
+                R.bad(c, w, 'defaults first, user parameters last (a user value must win)', f'{kind} store of {key!r} overrides the user value')
+            elif exc:
+                R.exc(c, w, exc)
+            else:
+                R.bad(c, w, 'defaults first, user parameters last (a user value must win)', f'{kind} store of {key!r} overrides the user value')
